@@ -216,7 +216,7 @@ func checkC02(c *Ctx) {
 		var sites []token.Pos
 		ast.Inspect(decl.Body, func(n ast.Node) bool {
 			if call, ok := n.(*ast.CallExpr); ok {
-				if cal := Callee(info, call); cal != nil && cal.Name() == "buildQueryParameters" {
+				if cal := Callee(info, call); cal != nil && cal == c.P.Func(pkgOpenAPI, "Generator.buildQueryParameters") {
 					sites = append(sites, call.Pos())
 				}
 			}
